@@ -19,6 +19,10 @@ def tick_to_dt(t):
     return None if t is None else EPOCH + dt.timedelta(seconds=t)
 
 
+class BuildMismatch(Exception):
+    pass
+
+
 class Dead(BaseException):
     """The process 'died' at an operation: every later operation also raises this."""
 
@@ -151,6 +155,8 @@ class World:
                     o, r = self.materialize(nd["v"])
                     self.argrefs[i] = ([r], [])
                     node = plan.gather(o)
+                    if ("n" in nd["v"] or "u" in nd["v"]) and node is not o:
+                        raise BuildMismatch(f"plan.gather(node) did not return the node itself (node {i})")
                 else:
                     raise ValueError(k)
             self.nodes.append(node)
